@@ -148,6 +148,37 @@ func init() {
 				done = false
 			}
 		}
+		// access forms over nested literals: chains of .key, .N and [key] in
+		// every order, nested hash literals, membership in strings
+		h := func(kv ...interface{}) *m.E {
+			e := &m.E{K: "hash"}
+			for i := 0; i < len(kv); i += 2 {
+				e.KS = append(e.KS, m.EName(kv[i].(string)))
+				e.A = append(e.A, kv[i+1].(*m.E))
+			}
+			return e
+		}
+		rows := m.EArr(h("name", m.EStr("N"), "tags", m.EArr(m.EStr("x"), m.EStr("y"))), h("name", m.EStr("M"), "deep", h("er", h("est", m.ENum(9)))))
+		grids := m.EArr(m.EArr(m.ENum(1), m.ENum(2)), m.EArr(m.ENum(3), m.ENum(4)))
+		forms := []*m.E{
+			m.EAttr(m.EAttr(rows, "0"), "name"), m.EAttr(m.EIdx(rows, m.ENum(0)), "name"), m.EIdx(m.EAttr(rows, "1"), m.EStr("name")),
+			m.EAttr(m.EAttr(m.EAttr(rows, "0"), "tags"), "1"), m.EIdx(m.EAttr(m.EAttr(rows, "0"), "tags"), m.ENum(0)),
+			m.EAttr(m.EAttr(m.EAttr(m.EAttr(rows, "1"), "deep"), "er"), "est"), m.EAttr(m.EAttr(grids, "1"), "0"), m.EIdx(m.EIdx(grids, m.ENum(1)), m.ENum(0)),
+			m.EAttr(m.EIdx(grids, m.ENum(0)), "1"), m.EIdx(m.EAttr(grids, "0"), m.ENum(1)), m.EAttr(m.EAttr(m.EName("an0"), "0"), "x"),
+			m.EAttr(m.EAttr(h("a", h("b", m.ENum(1))), "a"), "b"), h("a", h("b", h("c", m.ENum(1)))), m.EArr(h("a", h()), h()),
+		}
+		for _, hay := range []string{"abc", "", "a b"} {
+			for _, nd := range []string{"a", "bc", "x", "", "abc", " "} {
+				forms = append(forms, m.EBin("in", m.EStr(nd), m.EStr(hay)), m.EBin("not in", m.EStr(nd), m.EStr(hay)))
+			}
+		}
+		forms = append(forms, m.EBin("in", m.EStr("b"), m.EName("s0")), m.EBin("in", m.EName("s0"), m.EStr("xabcx")))
+		for _, f := range forms {
+			idx++
+			if c.Mine(idx) && !grid.Check(c, one(f)) {
+				done = false
+			}
+		}
 		c.Ev.S.Exhaustive["operator_x_operand_pair_grid"] = done
 		cfg := gen.Cfg{ExprDepth: 5, BodyLen: 2, Nest: 0, Calls: true, Carriers: true}
 		sub.Rapid(c, c.Share(c.Pick(24000, 1600000)), func(t *rapid.T) *progCase {
